@@ -704,4 +704,179 @@ theorem tarOneR_eq (fs : FS) (root : P) (hinv : RInv fs root) (hroot : root ≠ 
                 (allDirs_after_parent fs fs1 hs _ hne _ h1) htne hdt (guard_nosym fs1 root _ hinv1 hpt hgt)
               (simp [tarOneG, tarOne, hk, hl, hgeq, hg, hMp, h1, hlt, hgeq1, hgt, hL]; try rfl)
 
+theorem zipOneR_eq (fs : FS) (root : P) (hinv : RInv fs root) (hroot : root ≠ []) (hr : GoodPath root)
+    (hdr : NoDots root) (mask : Nat) (e : Entry) : zipOneR fs root mask e = zipOne fs root mask e := by
+  unfold zipOneR
+  cases hl : lexOK root (cleanJoin root e.name) (e.kind == .dir) with
+  | false => simp [zipOneG, zipOne, hl]
+  | true =>
+    have hp : root <+: cleanJoin root e.name := lexOK_prefix root _ hr (cleanJoin_good root e.name hr) _ hl
+    have hne := prefix_ne_nil root _ hroot hp
+    have hdp : NoDots (cleanJoin root e.name) := cleanJoin_nodots root e.name hdr
+    have hgeq := guardR_eq fs root _ hinv hroot hdp hp
+    cases hg : ensureNoSymlinks fs root (cleanJoin root e.name) with
+    | false => simp [zipOneG, zipOne, hl, hgeq, hg]
+    | true =>
+      have hns := guard_nosym fs root _ hinv hp hg
+      have hs := hinv.slash hroot
+      have hMp : osMkdirAll fs (cleanJoin root e.name).dropLast (0o755 &&& mask) =
+          mkdirAll fs (cleanJoin root e.name).dropLast (0o755 &&& mask) :=
+        osMkdirAll_eq fs hinv.wf hs _ _ (nodots_dropLast _ hdp) (nosym_dropLast fs _ hns)
+      have hlastOf : ∀ fs1, mkdirAll fs (cleanJoin root e.name).dropLast (0o755 &&& mask) = some fs1 →
+          ∀ t, fs1.get (cleanJoin root e.name) ≠ some (.symlink t) := by
+        intro fs1 h1 t
+        rw [parent_self fs fs1 _ hne _ h1]
+        have := hns _ (List.length_pos_iff.mpr hne) (Nat.le_refl _) t
+        rwa [List.take_length] at this
+      have hfile : ∀ (k : Kind), e.kind = k → k ≠ .symlink → k ≠ .dir →
+          zipOneG true fs root mask e = zipOne fs root mask e := by
+        intro k hk hk1 hk2
+        cases h1 : mkdirAll fs (cleanJoin root e.name).dropLast (0o755 &&& mask) with
+        | none => cases k <;> first | exact absurd rfl hk1 | exact absurd rfl hk2 |
+            (simp [zipOneG, zipOne, hk, hl, hgeq, hg, hMp, h1]; try rfl)
+        | some fs1 =>
+          have hW := openWriteR_eq fs1 _ (perm e.mode &&& mask) e.data hne hdp
+            (allDirs_after_parent fs fs1 hs _ hne _ h1) (hlastOf fs1 h1)
+          cases k <;> first | exact absurd rfl hk1 | exact absurd rfl hk2 |
+            (simp [zipOneG, zipOne, hk, hl, hgeq, hg, hMp, h1, hW]; try rfl)
+      cases hk : e.kind with
+      | dir =>
+        have hM : osMkdirAll fs (cleanJoin root e.name) (perm e.mode &&& mask) =
+            mkdirAll fs (cleanJoin root e.name) (perm e.mode &&& mask) := osMkdirAll_eq fs hinv.wf hs _ _ hdp hns
+        (simp [zipOneG, zipOne, hk, hl, hgeq, hg, hM]; try rfl)
+      | symlink =>
+        cases hsh : e.short with
+        | true => (simp [zipOneG, zipOne, hk, hl, hgeq, hg, hsh]; try rfl)
+        | false =>
+          cases h1 : mkdirAll fs (cleanJoin root e.name).dropLast (0o755 &&& mask) with
+          | none => (simp [zipOneG, zipOne, hk, hl, hgeq, hg, hsh, hMp, h1]; try rfl)
+          | some fs1 =>
+            have hS := symlinkR_eq fs1 e.link _ hne hdp (allDirs_after_parent fs fs1 hs _ hne _ h1)
+            (simp [zipOneG, zipOne, hk, hl, hgeq, hg, hsh, hMp, h1, hS]; try rfl)
+      | reg => exact hfile _ hk (by decide) (by decide)
+      | link => exact hfile _ hk (by decide) (by decide)
+      | other => exact hfile _ hk (by decide) (by decide)
+      | corrupt => exact hfile _ hk (by decide) (by decide)
+
+/-! ### the invariant is kept by every iteration, the runs coincide -/
+
+theorem tarOne_lex_of_ok (fs : FS) (root : P) (mask : Nat) (e : Entry) (hok : (tarOne fs root mask e).2 = true) :
+    lexOK root (cleanJoin root e.name) (e.kind == .dir) = true := by
+  cases hl : lexOK root (cleanJoin root e.name) (e.kind == .dir) with
+  | true => rfl
+  | false =>
+    have : (tarOne fs root mask e).2 = false := (tarOne_fails_iff fs root mask e).mpr (Or.inr (Or.inl hl))
+    rw [this] at hok; cases hok
+
+theorem stepGet_root_nolink (fs : FS) (root p : P) (nn : Option Nd) (dm : Nat)
+    (h : ∀ t, fs.get root ≠ some (.symlink t)) (hnn : root = p → ∀ t, nn ≠ some (.symlink t)) :
+    ∀ t, stepGet fs.view p nn dm root ≠ some (.symlink t) := by
+  intro t
+  unfold stepGet FS.view
+  simp only
+  cases hg : fs.get root with
+  | some n => simp only; rw [← hg]; exact h t
+  | none =>
+    simp only
+    by_cases hrp : root = p
+    · rw [if_pos hrp]; exact hnn hrp t
+    · rw [if_neg hrp]
+      split
+      · exact fun h' => by cases h'
+      · exact fun h' => by cases h'
+
+theorem tarOne_root_nolink (fs : FS) (root : P) (hr : GoodPath root) (hroot : root ≠ []) (mask : Nat) (e : Entry)
+    (h : ∀ t, fs.get root ≠ some (.symlink t)) : ∀ t, (tarOne fs root mask e).1.get root ≠ some (.symlink t) := by
+  intro t
+  cases hb : (tarOne fs root mask e).2 with
+  | true =>
+    have hov := congrArg (fun x => x.get root) (tarOne_overlay fs root hr hroot mask e _ rfl hb)
+    have hov' : (tarOne fs root mask e).1.get root = (overlayStep root mask fs.view e).get root := hov
+    rw [hov']
+    by_cases hc : e.creates
+    · rw [overlayStep_get root mask _ e hc]
+      apply stepGet_root_nolink fs root _ _ _ h
+      intro hrp t'
+      -- the entry names the root: it is a directory entry
+      have hl := tarOne_lex_of_ok fs root mask e hb
+      have hkd : e.kind = .dir := by
+        rcases (lexOK_iff root _ hr (cleanJoin_good root e.name hr) _).mp hl with ⟨c, t2, e2⟩ | ⟨_, hd⟩
+        · exfalso
+          rw [← hrp] at e2
+          have := congrArg List.length e2; simp at this
+        · rw [kind_beq] at hd; simpa using hd
+      simp [newNode, hkd]
+    · unfold overlayStep; rw [if_neg hc]; exact h t
+  | false =>
+    rcases tarOne_failed_effect fs root hr hroot mask e _ rfl hb with h1 | ⟨_, h1⟩ | ⟨hk, _, h1⟩
+    · rw [h1]; exact h t
+    · have hov : (tarOne fs root mask e).1.get root = stepGet fs.view (cleanJoin root e.name) none (0o755 &&& mask) root :=
+        congrArg (fun x => x.get root) h1
+      rw [hov]
+      exact stepGet_root_nolink fs root _ _ _ h (fun _ t' h' => by cases h') t
+    · have hov : (tarOne fs root mask e).1.get root = (overlayStep root mask fs.view e).get root :=
+        congrArg (fun x => x.get root) h1
+      rw [hov, overlayStep_get root mask _ e (Or.inl hk)]
+      apply stepGet_root_nolink fs root _ _ _ h
+      intro _ t'
+      simp [newNode, hk]
+
+theorem RInv.tarStep {fs : FS} {root : P} (hinv : RInv fs root) (hr : GoodPath root) (hroot : root ≠ [])
+    (mask : Nat) (e : Entry) : RInv (tarOne fs root mask e).1 root := by
+  have hsys := tarOne_sys root hr fs mask e
+  refine ⟨hsys.wf hinv.wf, ?_, tarOne_root_nolink fs root hr hroot mask e hinv.rootNoLink⟩
+  intro j hj
+  obtain ⟨m, hm⟩ := hinv.anc j hj
+  exact ⟨m, hsys.mono _ _ hm⟩
+
+/-- an iteration of the zip loop is an iteration of the tar loop (on the entry read as a regular file when its kind
+    is none of the three the zip reader yields), or changes nothing -/
+theorem zipOne_as_tar (fs : FS) (root : P) (mask : Nat) (e : Entry) :
+    (zipOne fs root mask e).1 = fs ∨ ∃ e', (zipOne fs root mask e).1 = (tarOne fs root mask e').1 := by
+  by_cases hsh : e.kind = .symlink ∧ e.short = true
+  · exact Or.inl (zipOne_symlink_short_tree fs root mask e hsh.1 hsh.2)
+  · right
+    cases hk : e.kind with
+    | reg => exact ⟨e, by rw [zipOne_eq_tarOne fs root mask e (Or.inl hk)]⟩
+    | dir => exact ⟨e, by rw [zipOne_eq_tarOne fs root mask e (Or.inr (Or.inl hk))]⟩
+    | symlink =>
+      have hs : e.short = false := by
+        cases h : e.short with
+        | false => rfl
+        | true => exact absurd ⟨hk, h⟩ hsh
+      exact ⟨e, by rw [zipOne_eq_tarOne fs root mask e (Or.inr (Or.inr ⟨hk, hs⟩))]⟩
+    | link => exact ⟨{ e with kind := .reg }, by simp [zipOne, tarOne, hk]; rfl⟩
+    | other => exact ⟨{ e with kind := .reg }, by simp [zipOne, tarOne, hk]; rfl⟩
+    | corrupt => exact ⟨{ e with kind := .reg }, by simp [zipOne, tarOne, hk]; rfl⟩
+
+theorem RInv.zipStep {fs : FS} {root : P} (hinv : RInv fs root) (hr : GoodPath root) (hroot : root ≠ [])
+    (mask : Nat) (e : Entry) : RInv (zipOne fs root mask e).1 root := by
+  rcases zipOne_as_tar fs root mask e with h | ⟨e', h⟩
+  · rw [h]; exact hinv
+  · rw [h]; exact hinv.tarStep hr hroot mask e'
+
+theorem extractWith_eq (root : P) (one one' : FS → Entry → FS × Bool)
+    (heq : ∀ fs, RInv fs root → ∀ e, one fs e = one' fs e)
+    (hkeep : ∀ fs, RInv fs root → ∀ e, RInv (one' fs e).1 root) (es : List Entry) (fs : FS) (hinv : RInv fs root) :
+    extractWith one fs es = extractWith one' fs es := by
+  induction es generalizing fs with
+  | nil => rfl
+  | cons x xs ih =>
+    rw [extractWith_cons, extractWith_cons, heq fs hinv x]
+    split
+    · exact ih _ (hkeep fs hinv x)
+    · rfl
+
+/-- **the resolving extractors are the lexical extractors** on every well-formed tree whose destination is not below
+    (or itself) a symbolic link -/
+theorem tarExtractR_eq (root : P) (hroot : root ≠ []) (hr : GoodPath root) (hdr : NoDots root) (mask : Nat)
+    (es : List Entry) (fs : FS) (hinv : RInv fs root) : tarExtractR fs root mask es = tarExtract fs root mask es :=
+  extractWith_eq root _ _ (fun fs h e => tarOneR_eq fs root h hroot hr hdr mask e)
+    (fun fs h e => h.tarStep hr hroot mask e) es fs hinv
+
+theorem zipExtractR_eq (root : P) (hroot : root ≠ []) (hr : GoodPath root) (hdr : NoDots root) (mask : Nat)
+    (es : List Entry) (fs : FS) (hinv : RInv fs root) : zipExtractR fs root mask es = zipExtract fs root mask es :=
+  extractWith_eq root _ _ (fun fs h e => zipOneR_eq fs root h hroot hr hdr mask e)
+    (fun fs h e => h.zipStep hr hroot mask e) es fs hinv
+
 end Ex
